@@ -51,6 +51,20 @@ Proof.
       * rewrite dlookup_dupd. destruct (String.eqb y x); reflexivity.
 Qed.
 
+Lemma vlookup_vdefine_local (g l : denv) (x y : string) (v : dval) :
+  let '(g1, l1) := vdefine false g l x v in
+  g1 = g /\ vlookup g1 l1 y = if String.eqb y x then Some v else vlookup g l y.
+Proof.
+  unfold vdefine, vlookup. split; [reflexivity|]. rewrite dlookup_dupd. destruct (String.eqb y x); reflexivity.
+Qed.
+
+Lemma vlookup_vdefine_main (g : denv) (x y : string) (v : dval) :
+  let '(g1, l1) := vdefine true g [] x v in
+  l1 = [] /\ vlookup g1 l1 y = if String.eqb y x then Some v else vlookup g [] y.
+Proof.
+  unfold vdefine, vlookup. split; [reflexivity|]. cbn [dlookup]. rewrite dlookup_dupd. reflexivity.
+Qed.
+
 Lemma didx_nat (n : nat) : didx (Z.of_nat n) = Some n.
 Proof. unfold didx. destruct (0 <=? Z.of_nat n) eqn:E; [now rewrite Nat2Z.id | apply Z.leb_gt in E; lia]. Qed.
 Lemma didx_nonneg (z : Z) : 0 <= z -> didx z = Some (Z.to_nat z).
@@ -70,6 +84,12 @@ Notation ex := (dexec fapp St ext callL fuel atMain).
 Notation ev := (deval fapp).
 
 Lemma dexec_TSkip s g l : ex TSkip s g l = DNormal St s g l. Proof. reflexivity. Qed.
+Lemma dexec_TDef x e s g l :
+  ex (TDef x e) s g l = match ev g l e with
+                        | Some v => let '(g1, l1) := vdefine atMain g l x v in DNormal St s g1 l1
+                        | None => DPanic St
+                        end.
+Proof. reflexivity. Qed.
 Lemma dexec_TSet x e s g l :
   ex (TSet x e) s g l = match ev g l e with
                         | Some v => let '(g1, l1) := vassign atMain g l x v in DNormal St s g1 l1
@@ -112,7 +132,7 @@ Lemma dexec_TRange i x a body s g l :
   match ev g l a with
   | Some (DL m) =>
       drangeLoop St (ex body)
-                 (fun g' l' k v => let '(g1, l1) := vassign atMain g' l' i (DI k) in vassign atMain g1 l1 x v)
+                 (fun g' l' k v => let '(g1, l1) := vdefine atMain g' l' i (DI k) in vdefine atMain g1 l1 x v)
                  m 0 s g l
   | _ => DPanic St
   end.
@@ -138,13 +158,13 @@ Lemma dexec_TCall f args s g l :
   | None => DPanic St
   end.
 Proof. reflexivity. Qed.
-Lemma dexec_TExt xs f args s g l :
-  ex (TExt xs f args) s g l =
+Lemma dexec_TExt def xs f args s g l :
+  ex (TExt def xs f args) s g l =
   match devals fapp g l args with
   | Some vs =>
       match ext f vs s with
       | Some (rs, s1) =>
-          match dassignAll atMain g l xs rs with
+          match dassignAll def atMain g l xs rs with
           | Some (g1, l1) => DNormal St s1 g1 l1
           | None => DPanic St
           end
@@ -225,12 +245,12 @@ End Loops.
 
 End DataIRP.
 
-#[export] Hint Rewrite @dexec_TSkip @dexec_TSet @dexec_TSetIdx @dexec_TCopy @dexec_TSeq @dexec_TIf @dexec_TFor @dexec_TRange
+#[export] Hint Rewrite @dexec_TSkip @dexec_TDef @dexec_TSet @dexec_TSetIdx @dexec_TCopy @dexec_TSeq @dexec_TIf @dexec_TFor @dexec_TRange
   @dexec_TBreak @dexec_TContinue @dexec_TRet @dexec_TCall @dexec_TExt : dataexec.
 
 (* unfold the statement structure where [dexec] is fully applied, compute expressions over concrete names;
    never unfolds [dexec] under a loop *)
 Ltac dx := autorewrite with dataexec;
-           cbn [tseq deval devals devalBin negb andb orb vlookup dlookup dupd dhas vassign String.eqb Ascii.eqb Bool.eqb
+           cbn [tseq deval devals devalBin negb andb orb vlookup dlookup dupd dhas vassign vdefine String.eqb Ascii.eqb Bool.eqb
                 argVals copyOut dassignAll setSlot fopF].
 Ltac dxs := repeat (progress dx).
